@@ -56,7 +56,7 @@ func judge(out *pipe.Outcome, ix *pipe.Index) pipe.Verdict {
 		ctl = s.Op
 	}
 	classes := fmt.Sprintf("d%v-q%v-f%v", j.ByHow["delivered"] > 0, j.ByHow["dlq"] > 0, j.ByHow["filtered"] > 0)
-	v.SigExtra = ctl + "|" + classes + "|" + pipe.CompletionOrderSig(out.Evs)
+	v.SigExtra = ctl + "|" + classes + "|" + pipe.CompletionOrderClass(out.Evs)
 	v.Sets = map[string][]string{"completion_orders": {pipe.CompletionOrderSig(out.Evs)}}
 	return v
 }
